@@ -18,7 +18,7 @@ CLAIMS = {
                 technique="exhaustive enumeration of operation sequences up to a depth on the real code (stateless search, fork isolation) against a reference model"),
     "C03": dict(engine=E3, ref="DESIGN.md §5 C03",
                 text="the same exhaustive history exploration with a byte-exact diff of a synthetic code arena (functions packed at 16-byte pitch around the targets), calls of never-faked neighbours/siblings/instantiations after every operation, a page-hash snapshot of every executable mapping of the process, and a check that nothing the injector does not own is unmapped",
-                note="bounded by depth and alphabet; the full-text snapshot runs on a shallower depth (see evidence); ARM back-ends are covered at placement level by the C15/C16 checks; plus a concurrent part (E2): a thread without a guard calls a never-faked function on the same code page while another thread fakes and un-fakes, every schedule at the crate's OS calls",
+                note="bounded by depth and alphabet; the full-text snapshot runs on a shallower depth (see evidence); ARM back-ends are covered at placement level by the C15/C16 checks; plus a concurrent part (E2): a thread without a guard calls a never-faked function on the same code page while another thread fakes and un-fakes, every schedule at the crate's OS calls; plus wide lifetimes (k up to 56 / 500 installations alive at once, neighbours called and compared, a process death counted)",
                 technique="exhaustive enumeration of operation sequences up to a depth on the real code, memory-diff invariant in every reached state"),
     "C12": dict(engine=E3, ref="DESIGN.md §5 C12",
                 text="in every state reached by every install history up to the depth, the set of live trampoline mappings handed out by mmap equals the set of live installations; every munmap is checked against the set of injector-owned mappings (address, page-rounded length); plus a long run of mixed cycles compared through /proc/self/maps",
@@ -64,7 +64,7 @@ CLAIMS.update({
                 technique="stateless DFS over thread schedules with iterative preemption bounding (CHESS style) on the real code"),
     "C05": dict(engine=E3, ref="DESIGN.md §5 C05",
                 text="every operation sequence up to the depth over begin / calls caught inside or propagating out of the scope / scope end / user panic / outside call with 0-2 pending call-count expectations (fork per history: exit status decides abort vs panic, exactly one panic payload, restored bytes, lock reusable by the next lifetime); plus every schedule of the C04 harness in which a holder lets go by panicking while another thread waits",
-                note="library-raised installation failures (signature mismatch, null pointer, boolean refusal, allocation exhaustion, one-shot and persistent mprotect failure) are injected at every position of every install history up to the depth (evidence.coverage.refusal_histories); after every history a fresh thread must obtain and use a new injector within 10 s; refusal kind 7 = straddling target whose second page refuses mprotect",
+                note="library-raised installation failures (signature mismatch, null pointer, boolean refusal, allocation exhaustion, one-shot and persistent mprotect failure) are injected at every position of every install history up to the depth (evidence.coverage.refusal_histories); after every history a fresh thread must obtain and use a new injector within 10 s; refusal kind 7 = straddling target whose second page refuses mprotect; a third part runs the complete C02 install alphabet (repeated targets, an expectation unmet at scope exit, user panics) and counts anything not restored or any process death after a lifetime that ended by a panic (evidence.coverage.unwound_histories)",
                 technique="exhaustive enumeration of operation sequences with injected panics (crash points) on the real code, fork isolation; schedule exploration for the concurrent part"),
     "C06": dict(engine=E3, ref="DESIGN.md §5 C06",
                 text="sequential: every sequence of matching / non-matching calls (caught or propagating), scope ends and panics up to the depth for N in 0..3 against a reference model; concurrent: k <= N+2 matching calls split over 1-3 caller threads under every schedule (3 callers: preemption-bounded), and 8/16 identical single-call threads with symmetry reduction; exactly min(k,N) admissions, scope-exit verdict and message in every schedule",
@@ -82,7 +82,7 @@ CLAIMS.update({
                 note="pairs differing only in lifetime spelling are executed but not judged (as the property says); the family now has 45 types (const-generic arguments incl. char, array lengths, tuple vs two parameters, generic arguments, trait objects, prefix names), dev and release build of the crate; probe pairs on an injector after every prefix of <= 2 earlier operations, also while unwinding",
                 technique="exhaustive enumeration of signature pairs over a structured type family, executed on the real crate"),
     "C10": dict(engine=E1, ref="DESIGN.md §5 C10",
-                text="gate: 26 target signatures (bool-returning of several shapes; return types that merely end in `-> bool`, contain it elsewhere, or resemble bool) x both values against the unmodified crate; stub: both values x every placement of the C01 domain on the x86-64 abstract machine and by real calls, the AArch64 stub on the A64 machine, a host assembly probe with walking register patterns, and all install histories with two boolean targets alive together",
+                text="gate: 156 target signatures (26 hand-picked ones - bool-returning of several shapes; return types that merely end in `-> bool`, contain it elsewhere, or resemble bool - plus the full product of 10 parameter-list shapes with nested parentheses/arrows/`bool` x 14 return shapes) x both values against the unmodified crate; stub: both values x every placement of the C01 domain on the x86-64 abstract machine and by real calls, the AArch64 stub on the A64 machine, a host assembly probe with walking register patterns, and all install histories with two boolean targets alive together",
                 note="AArch32 forwards to Rust functions; its branch is judged by C16; the gate runs against a dev and a release build and observes the target while the injector that refused is still alive",
                 technique="exhaustive enumeration of a signature family (gate) and of placements/histories (stub) on the real code"),
 })
@@ -90,7 +90,7 @@ CLAIMS.update({
 CLAIMS.update({
     "C14": dict(engine=E3, ref="DESIGN.md §5 C14",
                 text="every sequence over {fake async function f with the checked or unchecked macros, drop injector, panic} up to the depth over a family of 8 sibling async functions (two with equal output type, &str->String, 128-byte by-memory output, unit, method, one that pends once, one with a drop-counted argument); after every operation every function is awaited twice under a poll-counting executor (directly, nested in an outer async fn, on a second OS thread): faked functions complete on poll 1 with a value evaluated freshly in that await and without running the body, all others behave as originally, and everything is original again after the lifetime",
-                note="bounded by depth and family; histories are replayed on the unmodified crate; an operation V makes the value expression of one await panic; a reduced-depth copy runs against a build without debug assertions",
+                note="bounded by depth and family; histories are replayed on the unmodified crate; an operation V makes the value expression of one await panic; an operation U puts an unmet `times:` expectation on the same injector so that lifetimes also end by the verification panic at scope exit; a reduced-depth copy runs against a build without debug assertions",
                 technique="exhaustive enumeration of operation sequences up to a depth on the real code against a reference model"),
 })
 
